@@ -309,7 +309,9 @@ func (s *fileLoopCursor) ReadAggDataNormal() (*record.Record, *comm.FileInfo, er
 			if e = s.initCurrAggCursor(file); e != nil {
 				return nil, nil, e
 			}
-			if s.index == len(s.ctx.readers.Orders)-1 && s.ctx.querySchema.Options().IsAscending() || (s.index == 0 && !s.ctx.querySchema.Options().IsAscending()) {
+			// s.index counts the files in visiting order in both directions (getFile reverses the list for a
+			// descending query), so the last file visited is the one at index len-1.
+			if s.index == len(s.ctx.readers.Orders)-1 {
 				s.currAggCursor.SetLastFile()
 			}
 
